@@ -39,7 +39,7 @@ CLAIMED = {
     ),
     "C07": (
         "Per compiled generic radix format (29 radices plus exponent-digit-radix and flag variants) and float type: finite bit patterns incl. r^k-ulp/r^k/r^k+ulp, integers below 2^53/2^24 (r^k+-1, all-ones, small), x {default, forced positional, forced exponent notation} x trim_floats. Strict reader (digits of the radix only, one point, one exponent, upper case), acceptance by the same-format parser, exact error bound < 2048/256 ulp by big-integer cross-multiplication, exactness for integers below 2^p; the observed ulp-error histogram is reported.",
-        "Trusted: exact rational arithmetic (vcore). One known finding (positional output truncated at ~231 characters for values below radix^-200).",
+        "Trusted: exact rational arithmetic (vcore). With max_significant_digits set only well-formedness, parser acceptance and sign are judged (the rounded value is C14's business).",
         "property-based testing against an exact-arithmetic error-bound oracle",
     ),
     "C08": (
@@ -54,7 +54,7 @@ CLAIMED = {
     ),
     "C10": (
         "For every valid compiled format x every compiled type x {parse, parse_partial}, in release and in debug-assertion+overflow-check builds: all strings up to length 3 (thorough 4) over the per-format alphabet and generated inputs (valid numbers under insert/delete/duplicate/replace/truncate/splice mutations, arbitrary bytes, inputs padded to KiBs; lossy / no_multi_digit toggled). Every input sits in a guard-page buffer of exactly its length, once flush with the trailing and once with the leading PROT_NONE page, inside a supervised worker process. Monitor: the call returns (catch_unwind, worker survives, 20 s watchdog), count <= len, error index <= len.",
-        "Trusted: the kernel's page protection; attribution of a worker death to the last case recorded in a shared mapping. A read outside the slice that stays in mapped memory away from both guards is not visible (ASan/Miri are not part of this check).",
+        "Trusted: the kernel's page protection; attribution of a worker death to the last case recorded in a shared mapping. A read outside the slice that stays in mapped memory away from both guards is not visible to the quick tier; the thorough tier adds libFuzzer+ASan campaigns (fz_c10) and a generated corpus under Miri. A worker that stalls is re-executed alone before non-termination is reported.",
         "property-based testing and bounded-exhaustive enumeration under a memory-fault / panic / hang monitor (guard pages + supervised subprocesses)",
     ),
     "C11": (
@@ -69,7 +69,7 @@ CLAIMED = {
     ),
     "C13": (
         "For every valid compiled separator format (14 uniform modes, 42 single-component modes, 60 mixed triples, special/radix-16/prefix/syntax combinations) x {f64(+f32), u32/i64}: all strings up to length 6 (thorough 7) over {-,+,0,1,sep,point,exponent,junk}, plus generated numbers (midpoint-derived up to 1200 bytes, integer edges) with separator runs inserted at arbitrary positions. Relations: accepted exactly where the documented classifier enables every run, value of the digits; deleting separators keeps acceptance/value (complete, and the prefix consumed by the partial parser); separator-free inputs are treated identically by the separator-free counterpart format (complete and partial).",
-        "Trusted: separator classifier transcribed from docs/DigitSeparators.md and the per-mode examples documented in skip.rs; only ~130 of the 16^3 mode triples are compiled.",
+        "Trusted: separator classifier transcribed from docs/DigitSeparators.md and the per-mode examples documented in skip.rs; only ~200 of the 16^3 mode triples are compiled (all uniform and single-component modes, mixed-radix exponent modes, sampled mixtures). A separator that touches the base prefix letter is not judged (undocumented). One recorded finding (digit-less integer partial parse: Empty vs Ok((0, i))).",
         "bounded-exhaustive enumeration + property-based testing: metamorphic relations and a reference classifier",
     ),
     "C14": (
@@ -149,7 +149,7 @@ def main():
         ],
         "checks": checks,
         "not_applicable": [{"property_id": p, "reason": na_reasons.get(p, PENDING_REASON)} for p in props if p not in CLAIMED],
-        "notes": "Exit codes of every command: 0 held on everything explored, 1 violation (VIOLATION line printed), 2 infrastructure problem (never a violation). VERIF_SEED seeds every generator; VERIF_SCALE multiplies generated-case counts.",
+        "notes": "Exit codes of every command: 0 held on everything explored, 1 violation (VIOLATION line printed), 2 infrastructure problem (never a violation). VERIF_SEED seeds every generator; VERIF_SCALE multiplies generated-case counts. Thorough tier adds: more configurations, larger case counts and longer enumerations; libFuzzer+ASan campaigns whose targets carry the same oracles (C01, C02, C04-C14, C19; run.py FUZZ table); for C09/C10 a generated corpus executed natively and under Miri; for C16 all 24 feature configurations. A call into the library that does not return is confirmed by re-executing the single case alone in a fresh process before it is reported (DESIGN.md section 21.1); a mere time-out is exit 2.",
     }
     with open(os.path.join(VERIF, "MANIFEST.json"), "w") as f:
         json.dump(manifest, f, indent=1)
